@@ -19,10 +19,20 @@ CHECKS = {
   ref="DESIGN.md §6 C02",
   note=DEFAULT_NOTE + " History part ('all frames emitted during arbitrary session histories'): by the single call site of transport.write in send_msg plus dynamic capture of all writes in scripted histories; not a theorem over the session model yet."),
  "C01": dict(
-  technique="Lean 4 proof (framing layer + encoder shape proved for all messages; group reconstruction lemma in progress) over hand-written encoder/decoder models + bidirectional differential correspondence",
-  text="Proved for every BeginString/table/field list: the encoder's output is mkFrame(header fields ++ wire-order body fields) (encode_is_mkFrame), and the decoder on any structurally valid frame passes every framing check, consumes the whole frame, returns the bytes unchanged and enters its field loop with exactly the frame's fields and the right CheckSum expectation (decode_valid_frame), also when values contain '8=FIX.', '10=' or '='. The remaining obligation (the field loop rebuilds every wfTop container, stepAll_wfTop) is being proved; until it lands the group layer rests on correspondence: model and implementation compared in both directions on messages over all 29 group tags with nesting, and the theorem hypothesis wfTop is evaluated by the compiled model on every generated message.",
+  technique="Lean 4 proof (structural induction over the container tree; framing, encoder-shape and group-reconstruction layers composed) over hand-written encoder/decoder models + bidirectional differential correspondence; hypothesis wfTop evaluated by the compiled model on every generated message",
+  text="encode_decode: for every message, session, clock value and encoding mode (allocate / PossDup / SequenceReset / raw: selectSeq), if the container the decoder is expected to rebuild (8, 9, 35, 49, 56, 34, 52, then the message's own entries) satisfies the explicit decidable predicate wfTop w.r.t. the group table (tag is a group iff it is a table key, SOH-free values incl. '=', '10=', '8=FIX.' text, >= 1 item per group, item boundaries recognisable, no tag after a group that an open group could claim), then encode succeeds with exactly mkFrame(header ++ wire-order fields), and decode of those bytes returns exactly that container plus its CheckSum entry, consumed = frame length, raw bytes unchanged; no bound on sizes or nesting depth. Header clauses (CompIDs, allocated or carried number, session counter) are expected_header / selectSeq_alloc / selectSeq_raw; side conditions (BeginString starts the marker, no table member is 10 or 35, table keys distinct) are kernel-checked on the table regenerated from protocol_fix44.py each run. Model tied to Codec.encode/decode in both directions on messages over all 29 group tags.",
   ref="DESIGN.md §6 C01",
-  note=DEFAULT_NOTE),
+  note=DEFAULT_NOTE + " BodyLength is assumed to have at most 4300 digits (CPython int() limit)."),
+ "C03": dict(
+  technique="Lean 4 proof (invariant over the chunk list, all chunkings, no bounds) over hand-written models of Codec.decode and the socket_read_task inner loop + differential correspondence against the real reader task + implementation-only oracle",
+  text="reader_chunk_independent: for every BeginString with the marker prefix, every group table, every list of structurally valid frames (WFFrame) that decode on their own, every list of marker-free junk blocks between and around them, and every partition of the byte stream into reads (any sizes incl. 1 byte and empty, boundaries anywhere incl. inside the marker, BodyLength or CheckSum), the model reader hands over exactly those frames in order with the messages the decoder gives for each frame alone, never raises or stalls, and ends with a buffer that is a proper prefix of '8=FIX.' and a suffix of the last junk block (reader_residual_buffer); corollaries: any two chunkings agree, 1-byte reads. The model is compared with the real socket_read_task on ~12k (quick) / ~67k (thorough) chunkings per run.",
+  ref="DESIGN.md §6 C03",
+  note=DEFAULT_NOTE + " The hypothesis that each WFFrame decodes on its own is discharged by decode_mkFrame (C01) + fieldLoop_no_raise (C10) for frames whose field loop ends with ckPassed; the connection-state test inside the loop and EOF (empty read) are outside the model."),
+ "C15": dict(
+  technique="Lean 4 proof (mutual structural induction over the nested message tree; sweep-loop invariants for the component resolver) + differential correspondence on schema-directed instances and single-fault mutants of all 133 message types + independent XML reference reader",
+  text="validate_iff_allowed: for every dictionary satisfying the decidable schemaWF (evaluated by the compiled model on FIX44.xml and TT-FIX44.xml every run), every value verdict and every message tree at any depth, validate = ok iff Allowed (spec written independently: type known, required members incl. groups present, every tag known and allowed incl. header/trailer, plain vs group kind, valid values, per group item: members only, dictionary order, first member, required members, recursively); validate_error_kind: every rejection is FIXMessageError, no hypotheses; single-fault corollaries per mutation class at any depth; resolve_perm: component resolution gives the same result for every permutation of the declaration list (no acyclicity hypothesis). The library's XML parser is compared with an independent reference reader, also under permuted <components>.",
+  ref="DESIGN.md §6 C15",
+  note=DEFAULT_NOTE + " Value validity is an abstract parameter here (C19 decides it); parse-time KeyError/ValueError on malformed dictionaries and the header-before-components order are not modelled; CheckSum(10) is exempt as in the code."),
 }
 NOT_YET = "check under construction in this build round (model and theorems planned in DESIGN.md §6); not yet claimed"
 
